@@ -172,11 +172,96 @@ def valid_rx(c):
     return sum(1 for v in c if v == 1) <= 250
 
 
-def classify(p):
-    """a judge failure that the tolerant judgement (identical except that a RESET_STREAM whose final
-    size is below data already received may be accepted) accepts is exactly that known class"""
-    if p.get("component") != "rx":
-        return None
+def gen_st(rng):
+    """frames of every kind for streams of every class around the stream limit and around what
+    the application has opened; closing peer unidirectional streams; timers, transmissions, ack/loss"""
+    lb = rng.choice([0, 1, 2, 3, 5, 9, 10, 11, 20, 40, 63, 64, 100, rng.randrange(0, 70)])
+    lu = rng.choice([0, 1, 2, 3, 5, 9, 10, 11, 20, 40, 63, 64, 100, rng.randrange(0, 70)])
+    case = [rng.randrange(2), lb, lu]
+    lim = [lb, lu]
+    lopen = [0, 0]
+    closed = 0
+    npk = 0
+    for _ in range(rng.choice([1, 2, 3, 5, 8, 12, 20, 40])):
+        r = rng.random()
+        if r < 0.45:
+            t = rng.choice([0, 1, 1, 2, 3])
+            if t < 2:
+                base = lim[t] + (closed if t == 1 else 0)
+                n = rng.choice([max(0, base + rng.choice([-2, -1, 0, 0, 1])), rng.randrange(0, max(1, base)), rng.randrange(0, 64), 0, 1])
+            else:
+                n = rng.choice([max(0, lopen[t - 2] + rng.choice([-1, 0, 0, 1])), rng.randrange(0, 5)])
+            case += [1, t, min(n, 63), rng.choice([0, 1, 1, 2, 2, 3, 4, 5])]
+        elif r < 0.55:
+            b = rng.randrange(2)
+            case += [2, b]
+            lopen[0 if b else 1] += 1
+        elif r < 0.75:
+            case += [3, 1, rng.choice([0, 1, 2, rng.randrange(0, max(1, lu + closed + 1))]) % 64]
+            closed += 1
+        elif r < 0.80:
+            case += [4]
+        elif r < 0.93:
+            case += [5]
+            npk += 1
+        elif r < 0.97:
+            case += [6, rng.randrange(0, npk + 1)]
+        else:
+            case += [7, rng.randrange(0, npk + 1)]
+    return case
+
+
+def fixed_st(tier):
+    out = []
+    for server in (0, 1):
+        # every frame kind on every stream class: unopened / opened / at and beyond the limit
+        for k in range(6):
+            for lim in (0, 1, 5):
+                for n in (0, max(0, lim - 1), lim, lim + 1):
+                    out.append([server, lim, lim, 1, 0, n, k])
+                    out.append([server, lim, lim, 1, 1, n, k])
+                    out.append([server, lim, lim, 1, 0, n, 0, 1, 0, n, k, 1, 1, n, 0, 1, 1, n, k])
+            out.append([server, 5, 5, 1, 2, 0, k])
+            out.append([server, 5, 5, 1, 3, 0, k])
+            out.append([server, 5, 5, 2, 1, 1, 2, 0, k, 1, 2, 1, k])
+            out.append([server, 5, 5, 2, 0, 1, 3, 0, k, 1, 3, 1, k])
+            out.append([server, 5, 5, 2, 0, 2, 0, 2, 1, 1, 3, 1, k, 1, 2, 0, k, 1, 3, 2, k])
+        # closing streams moves the limit: limit L, close c streams (FIN or RESET, then read), timers, transmit
+        for lim in (1, 2, 5, 10, 11, 20):
+            for c in (1, 2, lim):
+                seq = [server, lim, lim]
+                for i in range(c):
+                    seq += [1, 1, i, 1 + (i % 2), 3, 1, i]
+                seq += [5, 1, 1, lim + c - 1, 0, 1, 1, lim + c, 0]
+                out.append(seq)
+                seq2 = [server, lim, lim]
+                for i in range(c):
+                    seq2 += [1, 1, i, 1 + (i % 2), 3, 1, i]
+                seq2 += [5, 7, 0, 5, 6, 1, 4, 5, 1, 1, lim + c - 1, 0, 3, 1, lim + c - 1, 1, 1, lim + c - 1, 1, 3, 1, lim + c - 1, 4, 5, 5, 1, 1, lim + c, 2]
+                out.append(seq2)
+    return out
+
+
+def valid_st(c):
+    if len(c) < 3 or not all(isinstance(v, int) and 0 <= v <= VMAX for v in c):
+        return False
+    return sum(1 for v in c if v == 2) <= 400
+
+
+def hist_st(cases, outs):
+    h = {"stream_limit_error": 0, "stream_state_error": 0, "not_closed": 0, "max_streams_frames": 0}
+    for o in outs:
+        t = o.split()
+        if t and t[-1] == "4":
+            h["stream_limit_error"] += 1
+        elif t and t[-1] == "5":
+            h["stream_state_error"] += 1
+        else:
+            h["not_closed"] += 1
+    return h
+
+
+def _tolerant_ok(comp, p):
     import os, subprocess
     from run_check import hexline, BUILD
     exe = os.path.join(BUILD, "ocaml", "C04", "model_C04")
@@ -185,12 +270,23 @@ def classify(p):
             continue
         line = "%s | %s\n" % (hexline(p[key_c]), p[key_o])
         try:
-            r = subprocess.run([exe, "judge", "rx_tolerant"], input=line.encode(), stdout=subprocess.PIPE, timeout=60)
+            r = subprocess.run([exe, "judge", comp + "_tolerant"], input=line.encode(), stdout=subprocess.PIPE, timeout=60)
             if r.stdout.decode().strip() != "1":
-                return None
+                return False
         except Exception:
-            return None
-    return "reset_final_size_below_received"
+            return False
+    return True
+
+
+def classify(p):
+    """a judge failure that the tolerant judgement of the component accepts is exactly the known
+    class that judgement tolerates (rx: a RESET_STREAM whose final size is below data already
+    received is accepted; st: a wrong-direction frame on an existing stream is accepted)"""
+    if p.get("component") == "rx" and _tolerant_ok("rx", p):
+        return "reset_final_size_below_received"
+    if p.get("component") == "st" and _tolerant_ok("st", p):
+        return "wrong_direction_stream_frame_accepted"
+    return None
 
 
 def hist_rx(cases, outs):
@@ -223,6 +319,10 @@ registry.register("C04", {
          "valid": valid_rx,
          "nontrivial": lambda case, out: len(out) >= 2 and any(v not in (0, -1) for v in out),
          "histogram": hist_rx},
+        {"name": "st", "gen": gen_st, "fixed": fixed_st, "quick": 20000, "thorough": 500000,
+         "valid": valid_st,
+         "nontrivial": lambda case, out: len(out) >= 2 and any(v not in (0, 1) for v in out),
+         "histogram": hist_st},
     ],
     "classify": classify,
     "rule": "rx: corpus + boundary families (for stream windows 0,1,2,10,100 and connection windows 0,1,w,w+1,2w: frames ending at window-1, window, window+1 with lengths 0/1/all, with and without FIN, followed by read + transmit; two streams sharing the connection window; final-size games: FIN then more data / other FIN / smaller FIN, RESET_STREAM with equal, other, smaller and limit-edge sizes, empty stream, offsets at 2^62-1, u32 window edge, window sliding after read + MAX_* transmission + ack/loss, stop_sending then RESET_STREAM) + seeded random sequences of 1..30 operations over 1..4 streams (STREAM frames in order / ending at the stream limit +-2 / ending at the connection limit +-2 / overlapping / around the final size / huge offsets; RESET_STREAM at received size, final size +-2, limit +-2, random; reads of 0..2^20; stop_sending; transmit; ack; loss; STREAM_DATA_BLOCKED), windows incl. 0, 1 and 2^32-1; a case is non-trivial when something other than plain acceptance happens (bytes delivered, an error, a MAX_* frame)",
